@@ -10,6 +10,7 @@ import Proofs.DepGraphEqv
 import Proofs.DepGraphDepsRec
 import Proofs.DepGraphDependsRec
 import Proofs.FlattenDepthOne
+import Proofs.FlattenRanked
 import Proofs.DepGraphTopoComplete
 /-!
 # C16 — the dependency graph mirrors a plain node/edge set under any edit history
@@ -29,7 +30,8 @@ the plain nodes (`graft_preserves_order`); transitive closure and reduction are 
 most / fewest edges).  `grafts_preserve_order` extends this to any sequence of grafts and `flatten_round_eq` shows that one round of the model's
 `flatten` is such a sequence.  Recursive `dependencies` is `dependencies_rec_reads` (partial correctness), recursive `depends` is `depends_rec_reads`
 (total: it always answers, cycles included), `<=` is `le_reads`, `==` is `eq_reads`.
-Not proved: the recursion of `flatten(recurse=True)` over nested levels — in the executable model and tied to the code by the correspondence
+`flatten(recurse=True)` returns on every well-founded nesting (`flatten_returns`, `flatten_all_plain`); that what it
+returns preserves the ordering constraints across several levels is not proved as one theorem — in the executable model and tied to the code by the correspondence
 (`multi_history_refines` is therefore the `…_partial` form of the property's first sentence: histories whose grafts are
 taken one at a time through `graft_refines_spec`).  `c16_pinned_refuted` keeps the pinned `graft` (A19) refuted.
 -/
@@ -516,6 +518,24 @@ theorem flatten_one_level_returns (store : Nat → Option G) (g : G) (hg : GInv 
     ∃ g', flattenLoop store true (2 + k) g = .ok g' ∧ GInv g' ∧ ∀ z, g'.Node z → z < nestedBase := by
   obtain ⟨g', h, hi, hp⟩ := flatten_depth_one store g hg hstore
   exact ⟨g', flattenLoop_mono store true 2 k g g' h, hi, hp⟩
+
+/-- **`flatten(recurse=True)` returns on every well-founded nesting**: if the nested graphs can be ranked so that a nested
+graph only holds nested graphs of smaller rank (no graph nested in itself, directly or not), then with every nested node of
+`g` of rank below `R` the loop over the levels ends within `R + 1` rounds — and with any larger number of rounds allowed —
+on a well-formed graph of plain nodes.  The same nested graph may stand at several places and levels (the situation in
+which the pinned `graft` made `flatten` loop for ever, defect A29). -/
+theorem flatten_returns (store : Nat → Option G) (rk : Nat → Nat) (hst : RankedStore store rk) (R : Nat) (g : G)
+    (hg : GInv g) (hr : ∀ z, g.Node z → nestedBase ≤ z → rk z < R) (k : Nat) :
+    ∃ g', flattenLoop store true (R + 1 + k) g = .ok g' ∧ GInv g' ∧ ∀ z, g'.Node z → z < nestedBase := by
+  obtain ⟨g', h, hi, hp⟩ := flatten_ranked store rk hst R g hg hr
+  exact ⟨g', flattenLoop_mono store true (R + 1) k g g' h, hi, hp⟩
+
+/-- the hypotheses are satisfiable: a store of empty graphs, all of rank 0 -/
+example : RankedStore (fun _ => some G.empty) (fun _ => 0) := by
+  intro x _
+  refine ⟨G.empty, rfl, GInv.empty, ?_⟩
+  intro z hz
+  simp [G.Node, G.empty, RList.empty] at hz
 
 /-- one round of the model's `flatten` is such a sequence of grafts -/
 theorem flatten_round_eq (store : Nat → Option G) (g : G) (fuel : Nat) (subs : List G)
